@@ -1,0 +1,317 @@
+//go:build verif
+
+package nebula
+
+// Verification hooks for the `hsmanager` correspondence engine (properties C09, C10, C31, C32).
+// Thin exported wrappers only: a node is assembled from the same constructors Main uses, but with a
+// caller-supplied udp.Conn / overlay.Device and without starting any goroutine, so the harness can drive
+// the handshake manager step by step.
+
+import (
+	"context"
+	"fmt"
+	"log/slog"
+	"net/netip"
+	"slices"
+	"sort"
+	"strings"
+	"time"
+
+	"github.com/slackhq/nebula/config"
+	"github.com/slackhq/nebula/firewall"
+	"github.com/slackhq/nebula/header"
+	"github.com/slackhq/nebula/overlay"
+	"github.com/slackhq/nebula/overlay/batch"
+	"github.com/slackhq/nebula/overlay/tio"
+	"github.com/slackhq/nebula/udp"
+)
+
+type VerifHsmNode struct {
+	F      *Interface
+	cancel context.CancelFunc
+}
+
+// VerifHsmNewNode mirrors the object wiring of Main (pki, firewall, hostmap, punchy, connection manager,
+// lighthouse, handshake manager, relay manager, interface) without sockets, tun or goroutines.
+func VerifHsmNewNode(l *slog.Logger, c *config.C, conn udp.Conn, tun overlay.Device) (*VerifHsmNode, error) {
+	ctx, cancel := context.WithCancel(context.Background())
+	pki, err := NewPKIFromConfig(l, c)
+	if err != nil {
+		cancel()
+		return nil, err
+	}
+	fw, err := NewFirewallFromConfig(l, pki.getCertState(), c)
+	if err != nil {
+		cancel()
+		return nil, err
+	}
+	hostMap := NewHostMapFromConfig(l, c)
+	punchy := NewPunchyFromConfig(l, c, conn)
+	connManager := newConnectionManagerFromConfig(l, c, hostMap, punchy)
+	lightHouse, err := NewLightHouseFromConfig(ctx, l, c, pki.getCertState(), conn, punchy)
+	if err != nil {
+		cancel()
+		return nil, err
+	}
+	messageMetrics := newMessageMetricsOnlyRecvError()
+	handshakeConfig := HandshakeConfig{
+		tryInterval:    c.GetDuration("handshakes.try_interval", DefaultHandshakeTryInterval),
+		retries:        int64(c.GetInt("handshakes.retries", DefaultHandshakeRetries)),
+		triggerBuffer:  c.GetInt("handshakes.trigger_buffer", DefaultHandshakeTriggerBuffer),
+		messageMetrics: messageMetrics,
+	}
+	handshakeManager := NewHandshakeManager(l, hostMap, lightHouse, conn, handshakeConfig)
+	lightHouse.handshakeTrigger = handshakeManager.trigger
+
+	ifConfig := &InterfaceConfig{
+		HostMap:           hostMap,
+		Inside:            tun,
+		Outside:           conn,
+		pki:               pki,
+		Firewall:          fw,
+		HandshakeManager:  handshakeManager,
+		connectionManager: connManager,
+		lightHouse:        lightHouse,
+		tryPromoteEvery:   c.GetUint32("counters.try_promote", defaultPromoteEvery),
+		reQueryEvery:      c.GetUint32("counters.requery_every_packets", defaultReQueryEvery),
+		reQueryWait:       c.GetDuration("timers.requery_wait_duration", defaultReQueryWait),
+		routines:          1,
+		MessageMetrics:    messageMetrics,
+		version:           "verif",
+		relayManager:      NewRelayManager(ctx, l, hostMap, c),
+		punchy:            punchy,
+		l:                 l,
+	}
+	ifce, err := NewInterface(ctx, ifConfig)
+	if err != nil {
+		cancel()
+		return nil, err
+	}
+	ifce.writers = []udp.Conn{conn}
+	lightHouse.ifce = ifce
+	ifce.reloadSendRecvError(c)
+	ifce.reloadAcceptRecvError(c)
+	handshakeManager.f = ifce
+	return &VerifHsmNode{F: ifce, cancel: cancel}, nil
+}
+
+func (n *VerifHsmNode) Close() { n.cancel() }
+
+// StartHandshake is HandshakeManager.StartHandshake (what tryRehandshake calls).
+func (n *VerifHsmNode) StartHandshake(a netip.Addr) { n.F.handshakeManager.StartHandshake(a, nil) }
+
+// GetOrHandshake is Interface.Handshake.
+func (n *VerifHsmNode) GetOrHandshake(a netip.Addr) { n.F.Handshake(a) }
+
+// Tick is the clock branch of HandshakeManager.Run.
+func (n *VerifHsmNode) Tick(now time.Time) { n.F.handshakeManager.NextOutboundHandshakeTimerTick(now) }
+
+// Trigger is the trigger branch of HandshakeManager.Run, taken until the channel is empty.
+func (n *VerifHsmNode) Trigger() int {
+	k := 0
+	for {
+		select {
+		case a := <-n.F.handshakeManager.trigger:
+			n.F.handshakeManager.handleOutbound(a, true)
+			k++
+		default:
+			return k
+		}
+	}
+}
+
+// LighthouseTrigger is what the lighthouse does on a HostQueryReply for a.
+func (n *VerifHsmNode) LighthouseTrigger(a netip.Addr) {
+	select {
+	case n.F.handshakeManager.trigger <- a:
+	default:
+	}
+}
+
+// DrainQueries empties the lighthouse query channel (no lighthouse worker runs in the harness).
+func (n *VerifHsmNode) DrainQueries() int {
+	k := 0
+	for {
+		select {
+		case <-n.F.lightHouse.queryChan:
+			k++
+		default:
+			return k
+		}
+	}
+}
+
+// Incoming is one iteration of listenOut for a directly received packet.
+func (n *VerifHsmNode) Incoming(from netip.AddrPort, pkt []byte) {
+	n.F.readOutsidePackets(ViaSender{UdpAddr: from}, pkt, newRxContext(n.F, 0))
+}
+
+// Inside is one iteration of listenIn for one plain IP packet read from the tun device.
+func (n *VerifHsmNode) Inside(pkt []byte) {
+	sb := batch.NewSendBatch(n.F.writers[0], batch.SendBatchCap, batch.SendBatchCap*(udp.MTU+32))
+	n.F.consumeInsidePacket(tio.Packet{Bytes: pkt}, &firewall.ParsedPacket{}, make([]byte, 12, 12), sb, make([]byte, mtu), 0, nil)
+	n.F.flushSendBatch(sb, 0)
+}
+
+// InjectLightHouseAddr is Control.InjectLightHouseAddr of the e2e build.
+func (n *VerifHsmNode) InjectLightHouseAddr(vpnIp netip.Addr, toAddr netip.AddrPort) {
+	lh := n.F.lightHouse
+	lh.Lock()
+	remoteList := lh.unlockedGetRemoteList([]netip.Addr{vpnIp})
+	remoteList.Lock()
+	defer remoteList.Unlock()
+	lh.Unlock()
+	if toAddr.Addr().Is4() {
+		remoteList.unlockedPrependV4(vpnIp, netAddrToProtoV4AddrPort(toAddr.Addr(), toAddr.Port()))
+	} else {
+		remoteList.unlockedPrependV6(vpnIp, netAddrToProtoV6AddrPort(toAddr.Addr(), toAddr.Port()))
+	}
+}
+
+// DeleteTunnel is the connection manager's deleteTunnel action on the hostmap.
+func (n *VerifHsmNode) DeleteTunnel(localIndex uint32) string {
+	n.F.hostMap.RLock()
+	hi := n.F.hostMap.Indexes[localIndex]
+	n.F.hostMap.RUnlock()
+	if hi == nil {
+		return "none"
+	}
+	if n.F.hostMap.DeleteHostInfo(hi) {
+		return "final"
+	}
+	return "more"
+}
+
+// SwapCheck is the non-primary, inbound-traffic branch of makeTrafficDecision/doTrafficCheck:
+// shouldSwapPrimary followed by swapPrimary.
+func (n *VerifHsmNode) SwapCheck(localIndex uint32) string {
+	cm := n.F.connectionManager
+	cm.hostMap.RLock()
+	hi := cm.hostMap.Indexes[localIndex]
+	var primary *HostInfo
+	if hi != nil {
+		primary = cm.hostMap.Hosts[hi.vpnAddrs[0]]
+	}
+	cm.hostMap.RUnlock()
+	if hi == nil {
+		return "none"
+	}
+	if primary == nil || primary == hi {
+		return "primary"
+	}
+	if !cm.shouldSwapPrimary(hi) {
+		return "keep"
+	}
+	cm.swapPrimary(hi, primary)
+	return "swap"
+}
+
+
+// Dump renders the pending and main hostmaps canonically (maps sorted, pointers as local indexes).
+// pktName names a handshake packet body (HandshakePacket entries) for the harness.
+func (n *VerifHsmNode) Dump(pktName func(stage uint8, b []byte) string, addrName func(netip.Addr) string, uName func(netip.AddrPort) string, timeName func(uint64) string) string {
+	hm := n.F.handshakeManager
+	var sb strings.Builder
+	hm.RLock()
+	var pend []string
+	for a, hh := range hm.vpnIps {
+		hh.Lock()
+		rdy := 0
+		if hh.ready {
+			rdy = 1
+		}
+		pend = append(pend, fmt.Sprintf("%s:%d:%d:%d:%d", addrName(a), hh.hostinfo.localIndexId, hh.counter, rdy, len(hh.packetStore)))
+		hh.Unlock()
+	}
+	var pidx []string
+	for i, hh := range hm.indexes {
+		pidx = append(pidx, fmt.Sprintf("%d>%s", i, addrName(hh.hostinfo.vpnAddrs[0])))
+	}
+	hm.RUnlock()
+	sort.Strings(pend)
+	sort.Strings(pidx)
+	sb.WriteString("P[" + strings.Join(pend, ",") + "] PI[" + strings.Join(pidx, ",") + "]")
+
+	m := n.F.hostMap
+	m.RLock()
+	defer m.RUnlock()
+	var hosts []string
+	for a := range m.Hosts {
+		var l []string
+		for _, hi := range m.unlockedGetHostList(a) {
+			l = append(l, fmt.Sprintf("%d", hi.localIndexId))
+		}
+		hosts = append(hosts, addrName(a)+"="+strings.Join(l, "/"))
+	}
+	for a := range m.moreHosts {
+		if _, ok := m.Hosts[a]; !ok {
+			hosts = append(hosts, addrName(a)+"=ORPHAN")
+		}
+	}
+	sort.Strings(hosts)
+	sb.WriteString(" H[" + strings.Join(hosts, ",") + "]")
+	var idx []string
+	keys := make([]uint32, 0, len(m.Indexes))
+	for k := range m.Indexes {
+		keys = append(keys, k)
+	}
+	slices.Sort(keys)
+	for _, k := range keys {
+		hi := m.Indexes[k]
+		var as []string
+		for _, a := range hi.vpnAddrs {
+			as = append(as, addrName(a))
+		}
+		ini, cv := 0, 0
+		if hi.ConnectionState != nil {
+			if hi.ConnectionState.initiator {
+				ini = 1
+			}
+			if hi.ConnectionState.peerCert != nil {
+				cv = int(hi.ConnectionState.peerCert.Certificate.Version())
+			}
+		}
+		idx = append(idx, fmt.Sprintf("%d:%d:%d:%s:%s:%d:%s:%s:%s", k, hi.localIndexId, hi.remoteIndexId, timeName(hi.lastHandshakeTime),
+			strings.Join(as, "+"), ini*10+cv, uName(hi.GetRemote()),
+			pktName(handshakePacketStage0, hi.HandshakePacket[handshakePacketStage0]), pktName(handshakePacketStage2, hi.HandshakePacket[handshakePacketStage2])))
+	}
+	sb.WriteString(" I[" + strings.Join(idx, ",") + "]")
+	var ridx []string
+	rkeys := make([]uint32, 0, len(m.RemoteIndexes))
+	for k := range m.RemoteIndexes {
+		rkeys = append(rkeys, k)
+	}
+	slices.Sort(rkeys)
+	for _, k := range rkeys {
+		ridx = append(ridx, fmt.Sprintf("%d>%d", k, m.RemoteIndexes[k].localIndexId))
+	}
+	sb.WriteString(" R[" + strings.Join(ridx, ",") + "]")
+	return sb.String()
+}
+
+// VerifHsmHsTimeout exposes hsTimeout.
+func VerifHsmHsTimeout(tries int64, interval time.Duration) time.Duration {
+	return hsTimeout(tries, interval)
+}
+
+// VerifHsmMaxCachedPackets exposes the queue cap.
+func VerifHsmMaxCachedPackets() int { return maxCachedPackets }
+
+// VerifHsmHeaderKind classifies a written packet for the recording conn.
+func VerifHsmHeaderKind(b []byte) (header.MessageType, header.MessageSubType, uint32, uint64, bool) {
+	var h header.H
+	if err := h.Parse(b); err != nil {
+		return 0, 0, 0, 0, false
+	}
+	return h.Type, h.Subtype, h.RemoteIndex, h.MessageCounter, true
+}
+
+// MyAddrFor returns this node's first overlay address of the same family as dst.
+func (n *VerifHsmNode) MyAddrFor(dst netip.Addr) netip.Addr {
+	for _, a := range n.F.myVpnAddrs {
+		if a.Is4() == dst.Is4() {
+			return a
+		}
+	}
+	return n.F.myVpnAddrs[0]
+}
